@@ -824,6 +824,15 @@ func (c *ExprCtx) call(x CCall) TV {
 			w := id.Name[1+len(op):]
 			f := e.s.DeclareFun("bits:"+op+":uint"+w, []string{SInt, SInt}, SInt)
 			return TV{V: App(SInt, f, c.intExpr(x.Args[0]), c.intExpr(x.Args[1]))}
+		case "subslice":
+			// subslice(s, lo, hi): the Go expression s[lo:hi] (same storage)
+			tv := c.expr(x.Args[0])
+			sv, ok := tv.V.(*SliceV)
+			if !ok {
+				c.fail("subslice: slice expected")
+			}
+			lo, hi := c.intExpr(x.Args[1]), c.intExpr(x.Args[2])
+			return TV{V: &SliceV{Base: sv.Base, Off: Add(sv.Off, lo), Len: Sub(hi, lo), Cap: Sub(sv.Cap, lo), Elem: sv.Elem, FromCell: sv.FromCell, CellPath: sv.CellPath}, Typ: tv.Typ}
 		case "f64":
 			return TV{V: e.floatOp("i2f", SF, c.intExpr(x.Args[0]))}
 		case "fquo":
@@ -1177,7 +1186,8 @@ func (c *ExprCtx) lvalue(x CExpr) (Addr, types.Type, bool) {
 	switch x := x.(type) {
 	case CIdent:
 		// a local variable (or parameter) that lives in memory because its address is taken
-		if c.fr == nil {
+		if c.fr == nil || c.block == nil || c.st == e.entry {
+			// requires/ensures/old(): parameter names denote entry values, not memory cells
 			return Addr{}, nil, false
 		}
 		if _, shadow := c.bound[x.Name]; shadow {
